@@ -218,7 +218,17 @@ fn len_small_or_long(small_max: usize) -> BoxedStrategy<usize> {
 }
 
 fn tx_list(small_max: usize) -> BoxedStrategy<Vec<TxSpec>> {
-    len_small_or_long(small_max).prop_flat_map(|n| proptest::collection::vec(tx_spec(), n..=n)).boxed()
+    (len_small_or_long(small_max).prop_flat_map(|n| proptest::collection::vec(tx_spec(), n..=n)), proptest::option::weighted(0.15, any::<u16>()))
+        .prop_map(|(mut v, dup)| {
+            // sometimes the same element twice in a row (retransmitted / merged lists)
+            if let (Some(d), false) = (dup, v.is_empty()) {
+                let i = gen::pick(d, v.len());
+                let e = v[i].clone();
+                v.insert(i, e);
+            }
+            v
+        })
+        .boxed()
 }
 
 fn id_list(small_max: usize) -> BoxedStrategy<Vec<IdSpec>> {
@@ -231,6 +241,23 @@ fn id_list(small_max: usize) -> BoxedStrategy<Vec<IdSpec>> {
             } else {
                 proptest::collection::vec(gen::id_spec(), n..=n).boxed()
             }
+        })
+        .boxed()
+}
+
+/// exactly n orders (fresh counter ids, small quantities): deep levels for length thresholds
+pub fn book_spec_exact(n: usize) -> BoxedStrategy<BookSpec> {
+    (0u64..=10_000, gen::order_spec(OrderGenCfg::all_types(Profile::Small, true)), any::<bool>())
+        .prop_map(move |(price, spec, ulid)| {
+            let orders = (0..n)
+                .map(|i| {
+                    let id = if ulid { IdSpec::Ulid(i as u128 + 1) } else { IdSpec::FromU64(i as u64 + 1) };
+                    let mut s = spec;
+                    s.ts = i as u64;
+                    (id, s)
+                })
+                .collect();
+            BookSpec { price, orders }
         })
         .boxed()
 }
@@ -261,6 +288,7 @@ pub fn val() -> BoxedStrategy<Val> {
         2 => book_spec(6).prop_map(Val::Package),
         1 => book_spec(70).prop_map(Val::Level),
         1 => book_spec(70).prop_map(Val::Package),
+        1 => gen::size_class(14).prop_flat_map(|n| book_spec_exact(n as usize)).prop_map(Val::Level),
         2 => (book_spec(6), proptest::collection::vec((any::<u16>(), gen::boundary_u64()), 1..4), 0u8..3).prop_map(|(book, changes, kind)| Val::Evolving { book, changes, kind }),
         2 => proptest::array::uniform8(gen::boundary_u64()).prop_map(Val::Stats),
     ]
@@ -396,6 +424,34 @@ fn json_rt<T: Serialize + for<'a> Deserialize<'a>>(x: &T) -> Result<(String, T),
     }
 }
 
+/// The other ways serde_json hands the same JSON to a Deserialize impl: from a reader (no borrowed
+/// strings), from a `Value`, from the text of a `Value` (object keys in sorted order) and from
+/// pretty-printed text. Each decoded value is compared by `eq` with the `from_str` result.
+fn json_other_paths<T: Serialize + for<'a> Deserialize<'a>>(x: &T, y: &T, eq: &dyn Fn(&T, &T) -> bool, what: &str) -> Result<(), String> {
+    let text = serde_json::to_string(x).map_err(|e| e.to_string())?;
+    let check = |path: &str, r: Result<Result<T, String>, String>| -> Result<(), String> {
+        match r {
+            Ok(Ok(z)) if eq(&z, y) => Ok(()),
+            Ok(Ok(_)) => Err(format!("{what}: decoding the library's JSON via {path} gives a different value than from_str ({text})")),
+            Ok(Err(e)) => Err(format!("{what}: the library's JSON cannot be decoded via {path}: {e} ({text})")),
+            Err(m) => Err(format!("{what}: decoding via {path} panicked: {m}")),
+        }
+    };
+    check("serde_json::from_reader", catch(|| serde_json::from_reader::<_, T>(text.as_bytes()).map_err(|e| e.to_string())))?;
+    check("serde_json::from_slice", catch(|| serde_json::from_slice::<T>(text.as_bytes()).map_err(|e| e.to_string())))?;
+    // through a Value (only when every number fits what Value can hold: it always can here)
+    if let Ok(v) = serde_json::to_value(x) {
+        let v2 = v.clone();
+        check("serde_json::to_value -> from_value", catch(move || serde_json::from_value::<T>(v2).map_err(|e| e.to_string())))?;
+        let sorted = v.to_string();
+        check("the text of serde_json::to_value (object keys sorted)", catch(|| serde_json::from_str::<T>(&sorted).map_err(|e| e.to_string())))?;
+    }
+    if let Ok(pretty) = serde_json::to_string_pretty(x) {
+        check("pretty-printed text", catch(|| serde_json::from_str::<T>(&pretty).map_err(|e| e.to_string())))?;
+    }
+    Ok(())
+}
+
 fn same<T: PartialEq + std::fmt::Debug>(what: &str, enc: &str, a: &T, b: &T) -> Result<(), String> {
     if a == b {
         Ok(())
@@ -496,6 +552,7 @@ pub fn check_json(v: &Val) -> Result<(), String> {
             let x = spec.build(id.build(), *price);
             let (s, y) = json_rt(&x)?;
             same("OrderType", &s, &x, &y)?;
+            json_other_paths(&x, &y, &|a, b| a == b, "OrderType")?;
             // the same order carrying caller-defined extra fields
             #[derive(Clone, Debug, PartialEq, Serialize, Deserialize)]
             struct Extra {
@@ -511,7 +568,8 @@ pub fn check_json(v: &Val) -> Result<(), String> {
         Val::Update(u) => {
             let x = u.build();
             let (s, y) = json_rt(&x)?;
-            same("OrderUpdate", &s, &update_fields(&x), &update_fields(&y))
+            same("OrderUpdate", &s, &update_fields(&x), &update_fields(&y))?;
+            json_other_paths(&x, &y, &|a, b| update_fields(a) == update_fields(b), "OrderUpdate")
         }
         Val::Id(i) => {
             let x = i.build();
@@ -536,7 +594,8 @@ pub fn check_json(v: &Val) -> Result<(), String> {
         Val::Tx(t) => {
             let x = t.build();
             let (s, y) = json_rt(&x)?;
-            same("Transaction", &s, &x, &y)
+            same("Transaction", &s, &x, &y)?;
+            json_other_paths(&x, &y, &|a, b| a == b, "Transaction")
         }
         Val::TxList(l) => {
             let x = TransactionList::from_vec(l.iter().map(|t| t.build()).collect());
@@ -552,12 +611,17 @@ pub fn check_json(v: &Val) -> Result<(), String> {
                 filled_order_ids: filled.iter().map(|i| i.build()).collect(),
             };
             let (s, y) = json_rt(&x)?;
-            same("MatchResult", &s, &match_fields(&x), &match_fields(&y))
+            same("MatchResult", &s, &match_fields(&x), &match_fields(&y))?;
+            json_other_paths(&x, &y, &|a, b| match_fields(a) == match_fields(b), "MatchResult")
         }
         Val::Level(b) => {
             let x = b.build_level();
             let (s, y) = json_rt(&x)?;
-            same("PriceLevel", &s, &level_content(&x), &level_content(&y))
+            same("PriceLevel", &s, &level_content(&x), &level_content(&y))?;
+            if b.orders.len() <= 80 {
+                json_other_paths(&x, &y, &|a, b| level_content(a) == level_content(b), "PriceLevel")?;
+            }
+            Ok(())
         }
         Val::Snapshot { book, vis, hid, count } => {
             let x = PriceLevelSnapshot {
@@ -577,7 +641,8 @@ pub fn check_json(v: &Val) -> Result<(), String> {
                     z.orders.iter().map(|a| **a).collect::<Vec<_>>(),
                 )
             };
-            same("PriceLevelSnapshot", &s, &f(&x), &f(&y))
+            same("PriceLevelSnapshot", &s, &f(&x), &f(&y))?;
+            json_other_paths(&x, &y, &|a, b| f(a) == f(b), "PriceLevelSnapshot")
         }
         Val::Package(b) => {
             let level = b.build_level();
@@ -589,6 +654,7 @@ pub fn check_json(v: &Val) -> Result<(), String> {
             }
             back.validate().map_err(|e| format!("package no longer validates after the JSON trip ({}): {}", s, e))?;
             let (s2, y) = json_rt(&pkg)?;
+            json_other_paths(&pkg, &y, &|a, b| a.version == b.version && a.checksum == b.checksum && b.validate().is_ok(), "PriceLevelSnapshotPackage")?;
             y.validate().map_err(|e| format!("package no longer validates after serde trip ({}): {}", s2, e))?;
             let restored = PriceLevel::from_snapshot_package(back).map_err(|e| format!("restore failed: {e}"))?;
             same("PriceLevelSnapshotPackage -> level", &s, &level_content(&level), &level_content(&restored))
@@ -596,7 +662,8 @@ pub fn check_json(v: &Val) -> Result<(), String> {
         Val::Stats(a) => {
             let x = stats_of(a);
             let (s, y) = json_rt(&x)?;
-            same("PriceLevelStatistics", &s, &stats_vec(&x), &stats_vec(&y))
+            same("PriceLevelStatistics", &s, &stats_vec(&x), &stats_vec(&y))?;
+            json_other_paths(&x, &y, &|a, b| stats_vec(a) == stats_vec(b), "PriceLevelStatistics")
         }
         Val::Evolving { book, changes, kind } => {
             // second version: same ids, some displayed quantities changed (kept within u64 sums)
@@ -684,7 +751,7 @@ fn sample_of(v: &Val, json_mode: bool) -> serde_json::Value {
 
 pub fn run(cfg: &RunCfg, json_mode: bool) -> Report {
     let (id, rule): (&'static str, &str) = if json_mode {
-        ("C17", "values of every serde type (OrderType, OrderUpdate, OrderId, Side, TimeInForce, PegReferenceType, Transaction, TransactionList, MatchResult, PriceLevel, PriceLevelSnapshot with orders and arbitrary aggregate fields, PriceLevelSnapshotPackage, PriceLevelStatistics) from boundary-biased generators (0,1,79..81,2^32,2^53+-1,2^63,u64::MAX, i64::MIN/MAX, nil/max/random UUID and ULID, GTD at the limits, None amount, lists 0..8); oracle: serde_json::from_str(to_string(x)) == x field for field (levels: price + order set + aggregates); a package must keep version/checksum, still validate() and restore the same level. Non-trivial = value with an integer > 2^53 or from the boundary set, a GTD, a ULID, a None amount, or >=2 list elements/orders; distinct = hash of the value.")
+        ("C17", "values of every serde type (OrderType, OrderUpdate, OrderId, Side, TimeInForce, PegReferenceType, Transaction, TransactionList, MatchResult, PriceLevel, PriceLevelSnapshot with orders and arbitrary aggregate fields, PriceLevelSnapshotPackage, PriceLevelStatistics) from boundary-biased generators (0,1,79..81,2^32,2^53+-1,2^63,u64::MAX, i64::MIN/MAX, nil/max/random UUID and ULID, GTD at the limits, None amount, lists 0..8); oracle: serde_json::from_str(to_string(x)) == x field for field, and the same value again through from_reader, from_slice, to_value->from_value, the key-sorted text of the Value and pretty-printed text (levels: price + order set + aggregates); a package must keep version/checksum, still validate() and restore the same level. Non-trivial = value with an integer > 2^53 or from the boundary set, a GTD, a ULID, a None amount, or >=2 list elements/orders; distinct = hash of the value.")
     } else {
         ("C16", "values of every text-codec type (OrderType, OrderUpdate, OrderId, Side, TimeInForce, PegReferenceType, Transaction, TransactionList, MatchResult, PriceLevel, PriceLevelSnapshot summary, PriceLevelStatistics) from boundary-biased generators (same value space as C17); oracle: T::from_str(&x.to_string()) is Ok(y) with y == x field for field (level: price + order set + aggregates; snapshot summary: price + aggregates). Non-trivial = value with a boundary number, a GTD, a ULID, a None amount, or >=2 list elements/orders; distinct = hash of the value.")
     };
@@ -692,7 +759,7 @@ pub fn run(cfg: &RunCfg, json_mode: bool) -> Report {
     rep.assumptions = vec![
         "levels are generated with distinct order ids, order.price == level price and quantity sums within u64 (DESIGN §8)".into(),
     ];
-    let n = cfg.cases(2_000_000, 60_000_000);
+    let n = cfg.cases(if json_mode { 600_000 } else { 1_000_000 }, if json_mode { 20_000_000 } else { 40_000_000 });
     rep.absorb(
         if json_mode { "codec_json" } else { "codec_text" },
         explore(cfg, id, n, val, move |v: &Val, st| {
